@@ -503,6 +503,36 @@ func TestC12Macros(t *testing.T) {
 
 // TestC12Arity: every signature of 0..4 parameters x every subset of defaults (<= 3 params)
 // x every argument count 0..6.
+type C12DefExprCase struct {
+	Expr string `json:"expr"`
+	Form int    `json:"form"` // 0 local, 1 import as, 2 from import
+}
+
+// checkC12DefExpr: a parameter left out is bound to its default expression, i.e. to what the same
+// expression gives when it is passed as the argument.
+func checkC12DefExpr(c C12DefExprCase) error {
+	lib := "{% macro m0(x = " + c.Expr + ", y = 1) %}<{{ x }}|{{ y }}>{% endmacro %}"
+	calls := "{{ m0() }}={{ m0(" + c.Expr + ") }}={{ m0(" + c.Expr + ", 1) }}"
+	tm := map[string]string{"main": lib + calls}
+	switch c.Form % 3 {
+	case 1:
+		tm = map[string]string{"lib": lib, "main": "{% import 'lib' as l %}" + strings.ReplaceAll(calls, "m0(", "l.m0(")}
+	case 2:
+		tm = map[string]string{"lib": lib, "main": "{% from 'lib' import m0 %}" + calls}
+	}
+	r := render(newEngine(tm), "main", map[string]interface{}{"dv": 14})
+	if r.Failed() {
+		return nil // an expression the engine does not take in a default is not a binding question
+	}
+	parts := strings.Split(r.Out, "=")
+	if len(parts) != 3 || parts[0] != parts[1] || parts[1] != parts[2] {
+		return fmt.Errorf("default %s: the call without the argument, with the same expression as argument, and with both arguments print %s; templates:%s", c.Expr, q(r.Out), showSources(tm))
+	}
+	return nil
+}
+
+func init() { reg("C12.defexpr", checkC12DefExpr) }
+
 // c12DefaultExprs: parameter defaults that are expressions (a default is evaluated like the same
 // expression passed as the argument)
 func c12DefaultExprs() []*E {
@@ -530,6 +560,16 @@ func TestC12Arity(t *testing.T) {
 		r.Case(fmt.Sprint("default-expr", di), true, PrintS(m, SPrint{}))
 		if err := checkC12(c); err != nil {
 			r.FailEnum(t, "C12.macro", c, err)
+		}
+	}
+	for _, ex := range []string{"7 / 2", "1 / 4", "-7 / 2", "100 / 8 + 1", "2 ^ 3", "7 % 3", "-7 % 3", "'a' ~ 'b'", "1 + 2 * 3", "10 - 3 - 2", "[1, 2]|length", "3 > 2 ? 'y' : 'n'", "3 * (9 / 2)", "6 * 3 / 4", "1 / 3", "10 / 4 * 2", "0.5 + 0.25",
+		"-1", "60 * 60", "12 / 3", "2 - 5", "7 / 2 / 2", "(7 / 2)|round", "'it\\'s'", "null", "[]", "0", "''"} {
+		for form := 0; form < 3; form++ {
+			c := C12DefExprCase{Expr: ex, Form: form}
+			r.Case(fmt.Sprint("defexpr", ex, form), true, ex)
+			if err := checkC12DefExpr(c); err != nil {
+				r.FailEnumKey(t, "C12.defexpr", ex, c, err)
+			}
 		}
 	}
 	for np := 0; np <= 4; np++ {
